@@ -818,9 +818,13 @@ def transpose(a: SArr, perm=None):
 
 
 def moveaxis(a: SArr, src, dst):
-    s, d = int(src) % a.ndim, int(dst) % a.ndim
-    order = [i for i in range(a.ndim) if i != s]
-    order.insert(d, s)
+    srcs = [int(x) % a.ndim for x in (src if isinstance(src, (tuple, list)) else [src])]
+    dsts = [int(x) % a.ndim for x in (dst if isinstance(dst, (tuple, list)) else [dst])]
+    if len(srcs) != len(dsts) or len(set(srcs)) != len(srcs) or len(set(dsts)) != len(dsts):
+        raise NumpyRaise("ValueError", "`source` and `destination` arguments must have the same number of distinct elements")
+    order = [i for i in range(a.ndim) if i not in srcs]
+    for d, s in sorted(zip(dsts, srcs)):
+        order.insert(d, s)
     return transpose(a, order)
 
 
